@@ -1,6 +1,6 @@
 """Property -> clauses -> rule instances.  Each check_Cxx fills a Report; it never prints."""
 from .model import AnalysisError
-from .rules import twin, effect, work, feedback, models, misc, state, fresh, pda_rules, build, dispatch, io as iorules
+from .rules import twin, effect, work, feedback, models, misc, state, fresh, pda_rules, build, dispatch, io as iorules, closed
 
 ALG = ['dfa_algorithms', 'nfa_algorithms', 'pda_algorithms', 'tm_algorithms', 'cfg_algorithms', 'regexp_algorithms']
 
@@ -40,10 +40,21 @@ def _twins(ctx, rep, names):
 
 # -------------------------------------------------------------------------------------------------------
 
+def _closed(ctx, rep, specs, floor):
+    cache = closed.cache_summary(ctx, rep, ctx.prog.func('nfa_algorithms._nfa_cache'))
+    n = 0
+    for sp in specs:
+        n += closed.check_function(ctx, rep, ctx.prog.func(sp), cache)
+    if n < floor:
+        raise AnalysisError('fewer than {} closure requirement sites found in {}'.format(floor, specs))
+
+
 def check_C01(ctx, rep):
     rep.clauses_decided += ['epsilon_closure is a saturation that drops nothing and stops only on an empty worklist (R-WORK W1/W2/W4)',
                             'reads of a partial NFA transition map are guarded (R-EFFECT c)',
-                            'acceptance routines do not mutate their operands (R-EFFECT a)']
+                            'acceptance routines do not mutate their operands (R-EFFECT a)',
+                            'every acceptance decision, symbol step and cache entry of nfa_accepts_word works on epsilon-closed sets; the cache summary is derived from its body (R-CLOSED)',
+                            'class invariants asserted (R-BUILD)', 'no cross-call memo (R-STATE c)']
     rep.not_decided += ['that the fold over delta and the set stepping compute the textbook relation for every automaton and word']
     _worklists_in(ctx, rep, ['nfa_algorithms.epsilon_closure'])
     fs = F(ctx, 'dfa_algorithms.dfa_accepts_word', 'nfa_algorithms.epsilon_closure', 'nfa_algorithms._nfa_cache',
@@ -52,16 +63,22 @@ def check_C01(ctx, rep):
     n = effect.check_guarded_reads(ctx, rep, [f for f in _alg_funcs(ctx, ['nfa_algorithms']) if not f.name.endswith('_in_place')])
     if n < 3:
         raise AnalysisError('fewer than 3 NFA transition-map reads found')
+    _closed(ctx, rep, ['nfa_algorithms.nfa_accepts_word'], 2)
+    state.check_hidden_state(ctx, rep, modules=['nfa_algorithms', 'dfa_algorithms'])
+    build.check_invariants(ctx, rep)
 
 
 def check_C03(ctx, rep):
-    rep.clauses_decided += ['subset worklist enqueues exactly the unseen subsets (R-WORK W1/W2)', 'operand NFA not mutated, no shared mutable state (R-EFFECT)']
+    rep.clauses_decided += ['every subset is epsilon-closed before it is named, tested against F or enqueued (R-CLOSED iii)', 'subset worklist enqueues exactly the unseen subsets (R-WORK W1/W2)', 'operand NFA not mutated, no shared mutable state (R-EFFECT)']
     rep.not_decided += ['language equivalence for all words']
     _worklists_in(ctx, rep, ['nfa_algorithms.nfa_to_dfa'])
     _effect_on(ctx, rep, ['nfa_algorithms.nfa_to_dfa'])
     effect.check_guarded_reads(ctx, rep, F(ctx, 'nfa_algorithms.nfa_to_dfa'))
     state.check_hidden_state(ctx, rep, modules=['nfa_algorithms'])
     work.check_marker_alias(ctx, rep, ctx.prog.func('nfa_algorithms.nfa_to_dfa'))
+    _closed(ctx, rep, ['nfa_algorithms.nfa_to_dfa'], 3)
+    if closed.check_subset_names(ctx, rep, ctx.prog.func('nfa_algorithms.nfa_to_dfa')) < 3:
+        raise AnalysisError('fewer than 3 subset naming / enqueue sites in nfa_to_dfa')
 
 
 def check_C04(ctx, rep):
@@ -150,13 +167,15 @@ def check_C08(ctx, rep):
 
 def check_C09(ctx, rep):
     rep.clauses_decided += ['closure worklist records and enqueues each configuration once, limit read at call time, at least `limit` pops allowed (R-WORK W1/W2/W4)',
-                            'every pda_pop_push is dominated by pda_can_pop_push on the same arguments (guard pairing)']
+                            'every pda_pop_push is dominated by pda_can_pop_push on the same arguments (guard pairing)',
+                            'closure / step alternation and final test on a closed set (R-CLOSED)']
     rep.not_decided += ['soundness and completeness of the configuration search as a whole']
     _worklists_in(ctx, rep, ['pda_algorithms.pda_epsilon_closure'])
     if state.check_config_reads(ctx, rep) < 1:
         raise AnalysisError('no read of a GambaTools setting found')
     if pda_rules.check_pop_push_guard(ctx, rep, ctx.prog.funcs_of('pda_algorithms')) < 4:
         raise AnalysisError('fewer than 4 pda_pop_push call sites found')
+    _closed(ctx, rep, ['pda_algorithms.pda_accepts_word'], 2)
     _effect_on(ctx, rep, ['pda_algorithms.pda_epsilon_closure', 'pda_algorithms.pda_do_transition', 'pda_algorithms.pda_accepts_word',
                           'pda_algorithms.pda_pop_push', 'pda_algorithms.pda_can_pop_push'], shared=False)
 
@@ -213,6 +232,8 @@ def check_C12(ctx, rep):
     feedback.check_k4_roles(ctx, rep, roles)
     feedback.check_compare_languages(ctx, rep, ctx.prog.func('language_generator.compare_languages'))
     feedback.check_k7(ctx, rep, ctx.prog.func('notebook.check_max_states'))
+    if closed.check_checker_targets(ctx, rep, ctx.prog.func('notebook_nfa2dfa.check_nfa_to_dfa_answer')) < 1:
+        raise AnalysisError('recomputed-target comparison of the NFA->DFA checker vanished')
     dispatch.check_kind_dispatch(ctx, rep, ctx.prog.func('notebook.check_automaton_accepts_rejects.accepts'), '_accepts_word')
     dispatch.check_kind_dispatch(ctx, rep, ctx.prog.func('language_generator.generate_language'), '_words_up_to_n')
     dispatch.check_ext_tables(ctx, rep, [ctx.prog.func('notebook.language_parser'), ctx.prog.func('make_notebook.parse_language_file')])
@@ -317,6 +338,7 @@ def check_C14(ctx, rep):
 def check_C15(ctx, rep):
     rep.clauses_decided += ['epsilon-path searches terminate and their predecessor maps are written once per node (R-WORK W2/W3)',
                             'the unread-input column is the suffix word[k:] in all three simulators (M8)',
+                            'the history alternates raw and closed sets; acceptance and steps on closed sets (R-CLOSED i/ii/iv)',
                             'right-hand sides are unpacked into two symbols only under a length-2 test (R-ARITY)']
     rep.not_decided += ['that each returned row is a legal move; leftmost/rightmost order of the derivation']
     _worklists_in(ctx, rep, ['nfa_algorithms.nfa_find_epsilon_path', 'pda_algorithms.pda_find_epsilon_path'])
@@ -325,6 +347,9 @@ def check_C15(ctx, rep):
         work.check_marker_alias(ctx, rep, ctx.prog.func(sp))
     P = ctx.prog.func
     models.check_dfa_sim_column(ctx, rep, P('dfa_algorithms.dfa_simulate_word'))
+    _closed(ctx, rep, ['nfa_algorithms.nfa_simulate_word', 'pda_algorithms.pda_simulate_word'], 4)
+    closed.check_history(ctx, rep, P('nfa_algorithms.nfa_simulate_word'))
+    closed.check_history(ctx, rep, P('pda_algorithms.pda_simulate_word'))
     models.check_backward_word(ctx, rep, P('nfa_algorithms.nfa_simulate_word'))
     models.check_backward_word(ctx, rep, P('pda_algorithms.pda_simulate_word'))
     if misc.check_arity(ctx, rep, P('cfg_algorithms.cfg_derive_word')) < 1:
